@@ -7,6 +7,7 @@ import LarkVerif.EarleyExec
 import LarkVerif.LRCheck
 import LarkVerif.LRComplete
 import LarkVerif.LALRTable
+import LarkVerif.Shape
 import Std.Data.HashMap
 /-! Line-protocol driver: one JSON request per stdin line (`{"op": ...}`), one JSON answer per stdout line.
     Runs the *executable definitions the theorems are about*.  Not part of the proof library. -/
@@ -256,6 +257,50 @@ def runLrParse (j : Json) : Except String Json := do
     | Outcome.accept _ => "accept" | Outcome.error => "error" | Outcome.loop => "loop" | Outcome.crash => "crash" | Outcome.shifted _ => "shifted"
   pure (Json.mkObj [("safe", Json.bool safe), ("outcome", Json.str outcome), ("errorAt", natJ errorAt), ("steps", Json.arr steps), ("parse", Json.str whole)])
 
+open ShapeProto in
+def symInfoOf (j : Json) : Except String SymInfo := do
+  match (← j.getArr?).toList with
+  | [a, b, c] => pure ⟨← boolOf a, ← boolOf b, ← boolOf c⟩
+  | _ => throw "syminfo"
+
+open ShapeProto in
+partial def dOf (l : List Json) : Except String D := do
+  match l with
+  | [] => pure D.nil
+  | x :: rest =>
+    let restD ← dOf rest
+    let s ← symInfoOf (← x.getObjVal? "s")
+    match x.getObjVal? "kids" with
+    | .ok kids =>
+      let r ← x.getObjVal? "r"
+      let alias ← match r.getObjVal? "alias" with
+        | .ok (Json.null) => pure none
+        | .ok a => pure (some (← a.getNat?))
+        | .error _ => pure none
+      let markers ← (← getArr r "markers").mapM boolOf
+      let ri : RuleInfo := ⟨← getNat r "name", alias, ← boolOf (← r.getObjVal? "expand1"), ← boolOf (← r.getObjVal? "keepAll"), markers⟩
+      let kidsD ← dOf (← kids.getArr?).toList
+      pure (D.node s ri kidsD restD)
+    | .error _ => pure (D.leaf s (← getNat x "ty") 0 restD)
+
+open ShapeProto in
+partial def valJ : Val → Json
+  | .tok ty _ => Json.mkObj [("t", natJ ty)]
+  | .tree d ks => Json.mkObj [("d", natJ d), ("k", Json.arr (ks.map valJ).toArray)]
+  | .none => Json.null
+
+open ShapeProto in
+def runShape (j : Json) : Except String Json := do
+  let d ← dOf (← getArr j "forest")
+  let built := buildList d
+  let spec := shapeList d
+  -- WF is the hypothesis of buildList_eq_shapeList; evaluate it on the real derivation
+  let rec wf : D → Bool
+    | .nil => true
+    | .leaf _ _ _ rest => wf rest
+    | .node _ r kids rest => (r.markers.count false == kids.len) && wf kids && wf rest
+  pure (Json.mkObj [("built", Json.arr (built.map (fun x => valJ x.2)).toArray), ("spec", Json.arr (spec.map (fun x => valJ x.2)).toArray), ("wf", Json.bool (wf d))])
+
 def handle (j : Json) : Except String Json := do
   let op ← getStr j "op"
   match op with
@@ -301,6 +346,7 @@ def handle (j : Json) : Except String Json := do
   | "lex" => runLex j
   | "earley" => runEarley j
   | "lr_table" => runLrTable j
+  | "shape" => runShape j
   | "lr_parse" => runLrParse j
   | _ => throw s!"unknown op {op}"
 
